@@ -29,7 +29,9 @@ PKGS = ('vp', 'vq')
 ALPHA = ('vp', 'vq', 'vm', 'vn', 'zz')
 STDLIB_NAMES = ['os', 'os.path', 'json', 'json.decoder', 'json.nosuch', 'email.mime.text', 'xml.dom.minidom', 'collections.abc', 'concurrent.futures',
                 'math', 'zlib', '_bisect', '_json', 'itertools', 'sys', 'builtins', 'nonexistent_zz', 'os.nosuch', 'string', 'unittest.mock', 'importlib.machinery',
-                'encodings.utf_8', 'distutils_nosuch.x', 'ctypes', 'sqlite3.dbapi2', 'multiprocessing.connection']
+                'encodings.utf_8', 'distutils_nosuch.x', 'ctypes', 'sqlite3.dbapi2', 'multiprocessing.connection',
+                # compiled into the interpreter and (mostly) not imported by anything the checker loads
+                'gc', 'pwd', 'faulthandler', '_tracemalloc', '_locale', 'atexit', 'xxsubtype', '_symtable']
 
 
 def contents(depth):
@@ -124,6 +126,8 @@ def unloadable(name, roots):
 
 
 def expected_origin(name, roots):
+    if name in sys.builtin_module_names:
+        return ('loaded-only', name)       # BuiltinImporter comes first on sys.meta_path: no file can shadow these
     spec = ref_find(name, roots)
     if spec is not None:
         if spec.origin in (None, 'built-in', 'frozen'):
